@@ -11,6 +11,7 @@ import Driver.Conn
 import Driver.Enc
 import Driver.Dec
 import Driver.Rig
+import Driver.DidCodec
 /-
   udsdrv: one request per line on stdin, one answer per line on stdout.  Imports Model and Spec only.
 -/
@@ -28,6 +29,7 @@ def dispatch (cmd : String) (a : Args) : Except String String :=
   else if cmd == "conn" || cmd == "qconn" then Drv.Conn.run cmd a
   else if cmd == "enc" || cmd == "specdec" then Drv.Enc.run cmd a
   else if cmd == "dec" then Drv.Dec.run cmd a
+  else if cmd.startsWith "didc." then Drv.DidCodec.run cmd a
   else throw s!"unknown command {cmd}"
 
 partial def loop (hin hout : IO.FS.Stream) (st : Drv.Rig.St) : IO Unit := do
